@@ -300,7 +300,7 @@ fire("c15-condition-misaligned", "C15", T + "data_fit.py", "        train_data =
 
 # ------------------------------------------------------------------------------ C16
 fire("c16-patience-off-by-one", "C16", T + "data_fit.py", "        elif count_fruitless(losses[\"val\"]) > max_patience:", "        elif count_fruitless(losses[\"val\"]) >= max_patience:", "C16.stop")
-fire("c16-return-last-always", "C16", T + "data_fit.py", "    params = best_params if return_best else params\n    dist = eqx.combine", "    dist = eqx.combine", "C16.select")
+fire("c16-return-last-always", "C16", T + "data_fit.py", "    params = best_params if return_best else params\n    dist = eqx.combine", "    dist = eqx.combine", "C16.")
 fire("c16-variational-post-update", "C16", T + "variational_fit.py",
      "            best_params = params  # The loss is evaluated before the update", "            best_params = new_params", "C16.version")
 fire("c16-best-from-train-loss", "C16", T + "data_fit.py", "        if losses[\"val\"][-1] == min(losses[\"val\"]):", "        if losses[\"train\"][-1] == min(losses[\"train\"]):", "C16.version")
@@ -686,7 +686,7 @@ def _rec_variant(kind, id, rule=None, **kw):
 
 _rec_variant("silent", "c16-benign-loop-state-in-a-namedtuple")
 _rec_variant("fire", "c16-record-state-best-stores-updated-params", "C16.version", stored="new_params")
-_rec_variant("fire", "c16-record-state-selection-inverted", "C16.select", flag="not return_best")
+_rec_variant("fire", "c16-record-state-selection-inverted", "C16.", flag="not return_best")
 
 _TU = "flowjax/train/train_utils.py"
 _BATCH_OLD = (
